@@ -327,8 +327,13 @@ func positionToOffset(lines []string, pos Position) int {
 		return offset
 	}
 
-	// walk the line counting UTF-16 code units
+	// walk the line counting UTF-16 code units. The carriage return of a CRLF line
+	// ending belongs to the line ending, not to the line: a character past the end
+	// of the line means the position in front of it.
 	line := lines[pos.Line]
+	if pos.Line < len(lines)-1 && strings.HasSuffix(line, "\r") {
+		line = line[:len(line)-1]
+	}
 	units := 0
 	for byteIdx, r := range line {
 		if units >= pos.Character {
